@@ -220,6 +220,14 @@ func runCPK(c *eng.Ctx, cf cfg) {
 		return
 	}
 	c.Check(eqRows(qpRows(pk.Value[0]), qpRows(agg.Value), mods) && eqRows(qpRows(pk.Value[1]), qpRows(crps[0].Value), nil), "C14|"+P+".GenPublicKey|key-differs-from-aggregate-and-crp", nil)
+	{
+		in := qpRows(agg.Value)
+		for i := range crps {
+			in = append(in, qpRows(crps[i].Value)...)
+		}
+		c.Count("finalised_keys_checked_for_shared_storage", 1)
+		c.Check(!sharesStorage(append(qpRows(pk.Value[0]), qpRows(pk.Value[1])...), in), "C14|"+P+".GenPublicKey|key-shares-storage-with-share-or-crp", nil)
+	}
 	if cf.Ext {
 		// a key object that held another key before must end up identical to the fresh one
 		c.Try("C14|"+P+".GenPublicKey", func() {
